@@ -617,6 +617,11 @@ func checkTaintedSizes(rr *RuleRun, o *Own, fn *ssa.Function, srcName string, sr
 				if callee := t.Call.StaticCallee(); callee != nil && inModule(callee) && callee.Blocks != nil && depth < 2 {
 					for i, a := range t.Call.Args {
 						if a == v && i < len(callee.Params) {
+							if how := boundedAt(t.Block(), isDerived); how != "" {
+								// the size was bounded before it was handed to the helper
+								rr.OK(fmt.Sprintf("%s/%s→%s(arg)", fnKey(fn), srcName, callee.Name()), instrPos(t), "size bounded on every path before the helper is called: "+how)
+								continue
+							}
 							checkTaintedSizes(rr, o, callee, srcName+"→"+callee.Name(), callee.Params[i], depth+1)
 						}
 					}
